@@ -7,7 +7,7 @@ import (
 	"errors"
 	"fmt"
 	"io"
-	"math"
+	"math/big"
 	"sort"
 	"strconv"
 	"strings"
@@ -439,15 +439,13 @@ intLiteral
 	{
 		// remove separator "_"s
 		lit := strings.Replace($1.Literal, "_", "", -1)
-		// NOTE: ToLower is nesessary (to split by both e and E)
-		toks := strings.Split(strings.ToLower(lit), "e")
-		// NOTE: cast float to deal with minus exp (i.e. `100e-2 == 1`)
-		val, _ := strconv.ParseFloat(toks[0], 64)
-		// NOTE: cannot use ParseInt (math.Pow requires float)
-		exp, _ := strconv.ParseFloat(toks[1], 64)
+		n, err := parseExpInt(lit)
+		if err != nil {
+			yylex.Error(fmt.Sprintf("invalid int literal %s: %v", $1.Literal, err))
+		}
 		$$ = &ast.IntLiteral{
 			Token: $1.Literal,
-			Value: int64(val * math.Pow(10, exp)),
+			Value: n,
 			Src: yylex.(*Lexer).Source,
 		}
 	}
@@ -471,13 +469,13 @@ floatLiteral
 	{
 		// remove separator "_"s
 		lit := strings.Replace($1.Literal, "_", "", -1)
-		// NOTE: ToLower is nesessary (to split by both e and E)
-		toks := strings.Split(strings.ToLower(lit), "e")
-		val, _ := strconv.ParseFloat(toks[0], 64)
-		exp, _ := strconv.ParseFloat(toks[1], 64)
+		n, err := strconv.ParseFloat(lit, 64)
+		if err != nil {
+			yylex.Error(fmt.Sprintf("invalid float literal %s: %v", $1.Literal, err))
+		}
 		$$ = &ast.FloatLiteral{
 			Token: $1.Literal,
-			Value: float64(val * math.Pow(10, exp)),
+			Value: n,
 			Src: yylex.(*Lexer).Source,
 		}
 	} 
@@ -2170,6 +2168,42 @@ func tryParse(src io.Reader, l *Lexer) (a ast.Node, e error) {
 	
 	yyParse(l)
 	return l.program, nil
+}
+
+// parseExpInt evaluates an exponential int literal (like `12e3`) exactly.
+// The fraction part is truncated (i.e. `100e-2 == 1` and `1e-3 == 0`).
+func parseExpInt(lit string) (int64, error) {
+	// NOTE: ToLower is nesessary (to split by both e and E)
+	toks := strings.Split(strings.ToLower(lit), "e")
+	val, okVal := new(big.Int).SetString(toks[0], 10)
+	exp, okExp := new(big.Int).SetString(toks[1], 10)
+	if !okVal || !okExp {
+		return 0, strconv.ErrSyntax
+	}
+
+	if val.Sign() == 0 {
+		return 0, nil
+	}
+	// NOTE: 10**19 is greater than any int64
+	if exp.Cmp(big.NewInt(19)) >= 0 {
+		return 0, strconv.ErrRange
+	}
+	// NOTE: val is smaller than 10**len(toks[0])
+	if exp.Cmp(big.NewInt(int64(-len(toks[0])))) <= 0 {
+		return 0, nil
+	}
+
+	scale := new(big.Int).Exp(big.NewInt(10), new(big.Int).Abs(exp), nil)
+	if exp.Sign() >= 0 {
+		val.Mul(val, scale)
+	} else {
+		val.Quo(val, scale)
+	}
+
+	if !val.IsInt64() {
+		return 0, strconv.ErrRange
+	}
+	return val.Int64(), nil
 }
 
 type Lexer struct {
